@@ -12,14 +12,18 @@ EPS = 1e-25
 
 
 def lr_value(spec, t):
+  """Value of the (stub) learning-rate schedule at clock t. Schedules are
+  float32-valued (see ds_world.make_lr); constants are python floats."""
   k = spec['kind']
-  v = float(spec['v'])
   if k == 'const':
-    return v
+    return float(spec['v'])
+  f = np.float32
+  v = f(spec['v'])
   if k == 'linear':
-    return v * max(float(spec.get('floor', 0.0)), 1.0 - t / float(spec['T']))
+    x = f(1.0) - f(t) / f(spec['T'])
+    return float(v * max(f(spec.get('floor', 0.0)), x))
   if k == 'halving':
-    return v * (0.5 ** (t // int(spec['every'])))
+    return float(v * f(0.5) ** f(t // int(spec['every'])))
   raise ValueError(k)
 
 
